@@ -83,20 +83,22 @@ func (s *server) loop() {
 			return
 		default:
 		}
-		b := s.pipe.Written()
+		b := s.pipe.WrittenFrom(off)
+		at := 0
 		progressed := false
-		for len(b)-off >= 8 {
-			n := int(b[off+2])<<8 | int(b[off+3])
+		for len(b)-at >= 8 {
+			n := int(b[at+2])<<8 | int(b[at+3])
 			if n < 8 {
 				s.mu.Lock()
 				s.problem("client wrote a packet with header length %d", n)
 				s.mu.Unlock()
 				return
 			}
-			if off+n > len(b) {
+			if at+n > len(b) {
 				break
 			}
-			p := rc.Packet{Type: b[off], Status: b[off+1], Channel: uint16(b[off+4])<<8 | uint16(b[off+5]), Nr: b[off+6], Window: b[off+7], Body: append([]byte{}, b[off+8:off+n]...), Len: uint16(n)}
+			p := rc.Packet{Type: b[at], Status: b[at+1], Channel: uint16(b[at+4])<<8 | uint16(b[at+5]), Nr: b[at+6], Window: b[at+7], Body: append([]byte{}, b[at+8:at+n]...), Len: uint16(n)}
+			at += n
 			off += n
 			progressed = true
 			s.handle(p)
